@@ -939,5 +939,13 @@ _C09 += [
          ops={'isNone': 'Fn α → Bool'}, params={'src': 'List α', 'sep': 'Msg', 'maxsplit': 'Option Int'},
          kinds={'src': 'list', 'sep': 'none'}, helpers={'split_iter': 'split_iter_none'},
          result='List (List α)', tie_theorem='C09.src_split_none_eq_model'),
+    dict(_C09_COMMON, qualname='lstrip_iter', lean_name='lstrip_iter', kind='generator', tparams=['α'],
+         ops={'eqv': 'Fn α → α → Bool'}, params={'iterable': 'List α', 'strip_value': 'α'},
+         kinds={'iterable': 'list'}, locals={'iterator': 'Iter α'}, result='α',
+         tie_theorem='C09.src_lstrip_iter_eq_model'),
+    dict(_C09_COMMON, qualname='lstrip', lean_name='lstrip_list', kind='function', tparams=['α'],
+         ops={'eqv': 'Fn α → α → Bool'}, params={'iterable': 'List α', 'strip_value': 'α'},
+         kinds={'iterable': 'list'}, helpers={'lstrip_iter': 'lstrip_iter'}, result='List α',
+         tie_theorem='C09.src_lstrip_list_eq_model'),
 ]
 SPECS['C09'] = SPECS['C09'] + _C09
